@@ -265,7 +265,7 @@ def gen_kernel_and_rows(rng, kind, nmax=15):
     """kernel parameters plus a tie-/duplicate-heavy data set the kernel's validation accepts"""
     if kind == "Fuzzy":
         k = gen_fuzzy_kernel(rng)
-        d = rng.choice([1, 2, 2, 3])
+        d = rng.choice([1, 2, 2, 4])      # dim_original a power of two: the match value |x^w|/d stays a dyadic rational (exact regime)
         n = rng.randrange(2, nmax if k["beta"] != Fraction(3, 4) else min(nmax, 9))
         return k, grid_rows(rng, n, d)
     if kind == "ART2A":
